@@ -186,6 +186,8 @@ def apply_edits(item, edits, twin_false=False):
             item.replace(kind, e["a"], e["b"], int(at.get("count", "1")), at.get("why", ""))
         elif k == "desugar-for":
             item.desugar_for(int(at["loop"]), at.get("it", "vit"))
+        elif k == "drop-logs":
+            item.drop_logs(int(at.get("count", "0")))
         elif k == "desugar-match-str":
             item.desugar_match_str(int(at.get("nth", "1")), at.get("eq", "ext_streq"))
         elif k == "name-return":
